@@ -59,7 +59,7 @@ TNextEv ==
           ELSE /\ lost' = lost
                /\ /\ (e.nts - e.ts >= v.dmin /\ e.nts - e.ts <= v.dmax) = TRUE          \* delta bounds
                /\ NextValOK([v EXCEPT !.kind = IF @ = "sync" THEN "const" ELSE @], e.nval, slack) = TRUE
-               /\ vals' = [vals EXCEPT ![id] = [@ EXCEPT !.ts = e.nts, !.val = e.nval, !.pos = NextPos(v),
+               /\ vals' = [vals EXCEPT ![id] = [@ EXCEPT !.ts = e.nts, !.val = e.nval, !.pos = NextPos(v), !.opts = NextOpts(v),
                                                          !.repeat = IF @ > 1 THEN @ - 1 ELSE @]]
                /\ buckets' = InsertB(RemoveB(buckets, id), id, e.nts)
     /\ UNCHANGED <<emitted, slack, wire>>
